@@ -7,3 +7,6 @@ open WebPkg.C09
 #print axioms headersOk_iff
 #print axioms lowerAscii_idem
 #print axioms isUncached_case_insensitive
+#print axioms timestamps_iff
+#print axioms sameOrigin_reflexive
+#print axioms sameOrigin_symmetric
